@@ -120,16 +120,24 @@ fn check_container<K: Kmer, V: Vmer>(name: &str, v: &V, s: &[u8], c: &mut Case, 
 fn c13_k<K: Kmer>(c: &mut Case) -> Result<(), String> {
     let k = K::k();
     let fixed = [0usize, 1, 31, 32, 33, 63, 64, 65, 96, 97, 128, 129];
-    let n = match c.rng.below(5) {
+    let n = if c.lane_miri {
+        // interpreter lane: block-boundary lengths, where an unchecked read would leave the storage
+        *c.rng.pick(&[32usize, 64, 65, 33, 96]).max(&k)
+    } else { match c.rng.below(5) {
         0 => c.rng.below(k + 1),
         1 => k + c.rng.below(4),
         2 => *c.rng.pick(&fixed),
         _ => c.rng.below(201),
-    };
+    } };
     let s = c.rng.bases(n, *c.rng.pick(&[2usize, 4, 4, 4]));
     let all = c.tier == crate::runner::Tier::Thorough && c.rng.chance(1, 4);
     let mut checks = 0u64;
     checks += check_container::<K, DnaString>("DnaString", &DnaString::from_bytes(&s), &s, c, all)?;
+    {
+        // same string through the exact-capacity constructor (storage allocation == blocks used)
+        let asc: Vec<u8> = s.iter().map(|b| b"ACGT"[*b as usize]).collect();
+        checks += check_container::<K, DnaString>("DnaString(from_acgt_bytes)", &DnaString::from_acgt_bytes(&asc), &s, c, false)?;
+    }
     checks += check_container::<K, DnaBytes>("DnaBytes", &DnaBytes(s.clone()), &s, c, all)?;
     checks += check_container::<K, DnaSlice>("DnaSlice", &DnaSlice(&s), &s, c, all)?;
     // slices: every offset mod 32 over time, forward and reverse-complemented
@@ -163,6 +171,13 @@ fn c13_k<K: Kmer>(c: &mut Case) -> Result<(), String> {
             let sub = sl.slice(a, b);
             checks += check_container::<K, _>("DnaStringSlice(rc, nested)", &sub, &s[a..b], c, false)?;
         }
+    }
+    if c.lane_miri {
+        if n <= Lmer3::max_len() { checks += check_container::<K, Lmer3>("Lmer3", &Lmer3::from_slice(&s), &s, c, all)?; }
+        c.count("sequences", 1);
+        c.count("extraction_checks", checks);
+        c.nontrivial(H::new().u(k as u64).b(&s).get());
+        return Ok(());
     }
     // fixed-size strings of every capacity
     if n <= Lmer1::max_len() { checks += check_container::<K, Lmer1>("Lmer1", &Lmer1::from_slice(&s), &s, c, all)?; }
